@@ -500,6 +500,10 @@ def check_property(prop, tier, seed):
             path = write_replay(prop, "proof", {"broken": proof_broken, "theorem_file": prop_v})
             violations.append((path, " no-failing-input-found"))
 
+    for sid in cfg.get("static_known", []):
+        for k in known:
+            if k["property"] == prop and k["id"] == sid and not any((" %s " % sid) in x for x in known_seen):
+                known_seen.append("KNOWN-FINDING: property=%s %s %s" % (prop, k["id"], k["text"]))
     wall = time.time() - t0
     ev = {
         "property_id": prop, "tier": tier, "seed": seed, "level": "proof",
@@ -508,6 +512,7 @@ def check_property(prop, tier, seed):
             "checker_cmd": "make -C coq %so  (coqc 8.16.1, full .vo build) && coqc %s  # Print Assumptions" % (prop_v, prop_v),
             "trusted_base": cfg.get("trusted", []) + props.COMMON_TRUSTED,
             "theorems": nthm, "nonvacuity_examples": nex,
+            "theorem_names": re.findall(r"^\s*(?:Theorem|Corollary)\s+([A-Za-z0-9_']+)", strip_comments(open(os.path.join(COQ, prop_v)).read()), re.M),
             "axioms_reported_by_Print_Assumptions": axioms,
             "print_assumptions_closed": len(re.findall(r"Closed under the global context", assumptions_out)),
             "evaluations": total_eval, "distinct_nontrivial": nontriv,
@@ -529,10 +534,6 @@ def check_property(prop, tier, seed):
     with open(os.path.join(EVID, prop + ".json"), "w") as f:
         json.dump(ev, f, indent=1)
 
-    for sid in cfg.get("static_known", []):
-        for k in known:
-            if k["property"] == prop and k["id"] == sid:
-                known_seen.append("KNOWN-FINDING: property=%s %s %s" % (prop, k["id"], k["text"]))
     for k in known_seen:
         log(k)
     if violations:
